@@ -950,7 +950,170 @@ def stage_regen(work, tier, seed):
             "samples": [dict(id=q["id"], steps=q["steps"]) for q in reqs[:60:25]]}
 
 
-STAGES = {"regen": stage_regen, "pipeline": stage_pipeline, "lex": stage_lex, "resolve": stage_resolve, "prec": stage_prec, "tables": stage_tables, "lr": stage_lr, "mci_lr": stage_mci_lr, "glr": stage_glr}
+
+DET_GRAMMARS = dict(REGEN_GRAMMARS)
+DET_GRAMMARS.update({
+    "same_kind": "E: Ta {A} | Tb {A} | Tc {A1} | Td {A1};\nterminals\nTa: /a/;\nTb: /b/;\nTc: /c/;\nTd: /d/;\n",
+    "kinds3": "E: Ta {K} | Tb {K} | Tc {K} | Td {K1} | Ta Tb {K1} | Tc Td {K2} | Tb Tb {K2};\nterminals\nTa: /a/;\nTb: /b/;\nTc: /c/;\nTd: /d/;\n",
+    "choice_clash": "E: Num {Add} | Add;\nAdd: Ta;\nterminals\nNum: /\\d+/;\nTa: /a/;\n",
+    "amb": "E: E Tp E | E Tm E | Num;\nterminals\nTp: '+';\nTm: '*';\nNum: /\\d+/;\n",
+    "lexamb": "S: Id | Kw Id;\nterminals\nKw: 'let';\nId: /[a-z]+/;\n",
+    "layout": "S: Num+;\nLayout: LayoutItem*;\nLayoutItem: WS | Comment;\nterminals\nNum: /\\d+/;\nWS: /\\s+/;\nComment: /\\/\\/.*/;\n",
+})
+DET_DEFAULT = dict(algo="lr", tt="u", ps=False, pse=True, ms="u", lm="u", go="u", gen="functions", lexer="default",
+                   builder="default", loc_info=False, fancy=False, partial=False, skip_ws=True, actions=True)
+
+
+def det_vectors(tier, seed):
+    one = [dict(algo="glr"), dict(tt="lalr"), dict(tt="pager"), dict(tt="rn"), dict(ps=True), dict(pse=False),
+           dict(ms="f"), dict(lm="f"), dict(ms="t"), dict(go="t"), dict(gen="arrays"), dict(lexer="custom"),
+           dict(builder="generic"), dict(builder="custom"), dict(loc_info=True), dict(fancy=True),
+           dict(partial=True), dict(skip_ws=False), dict(actions=False)]
+    two = [dict(algo="glr", tt="lalr"), dict(algo="glr", ps=True), dict(algo="glr", pse=True), dict(algo="glr", go="t"),
+           dict(algo="glr", go="f"), dict(algo="glr", lm="f"), dict(algo="glr", gen="arrays"),
+           dict(algo="glr", loc_info=True), dict(algo="glr", builder="generic"), dict(tt="lalr", ps=True),
+           dict(algo="glr", ms="f", go="t"), dict(gen="arrays", loc_info=True), dict(algo="glr", tt="pager", pse=False)]
+    vs = [dict(DET_DEFAULT)] + [dict(DET_DEFAULT, **d) for d in one + two]
+    if tier == "thorough":
+        rng = random.Random(seed)
+        for _ in range(60):
+            v = dict(DET_DEFAULT)
+            for d in rng.sample(one, 3):
+                v.update(d)
+            vs.append(v)
+    return vs
+
+
+def cli_args(v, out):
+    a = ["-p", v["algo"], "-g", v["gen"], "-l", v["lexer"], "-b", v["builder"], "-o", out, "-a", out]
+    if v["tt"] != "u":
+        a += ["-t", {"lalr": "lalr", "pager": "lalr-pager", "rn": "lalr-rn"}[v["tt"]]]
+    if v["ps"]:
+        a.append("--prefer-shifts")
+    if not v["pse"]:
+        a.append("--no-shifts-over-empty")
+    for k, flag in (("ms", "most-specific"), ("lm", "longest-match"), ("go", "grammar-order")):
+        if v[k] != "u":
+            a.append("--lexical-disamb-%s=%s" % (flag, "true" if v[k] == "t" else "false"))
+    for k, flag in (("loc_info", "--builder-loc-info"), ("fancy", "--fancy-regex"), ("partial", "--partial-parse")):
+        if v[k]:
+            a.append(flag)
+    if not v["skip_ws"]:
+        a.append("--no-skip-ws")
+    if not v["actions"]:
+        a.append("--noactions")
+    return a
+
+
+def api_settings(v):
+    st = dict(algo=v["algo"], ps=v["ps"], pse=v["pse"], gen=v["gen"], lexer=v["lexer"], builder=v["builder"],
+              loc_info=v["loc_info"], fancy=v["fancy"], partial=v["partial"], skip_ws=v["skip_ws"],
+              actions=v["actions"], force=False)
+    if v["tt"] != "u":
+        st["tt"] = v["tt"]
+    for k in ("ms", "lm", "go"):
+        if v[k] != "u":
+            st[k] = v[k] == "t"
+    return st
+
+
+def digest_dir(d, stem="g"):
+    import hashlib
+    h = hashlib.sha256()
+    found = False
+    for f in (stem + ".rs", stem + "_actions.rs"):
+        p = os.path.join(d, f)
+        if os.path.exists(p):
+            found = True
+            h.update(f.encode())
+            h.update(open(p, "rb").read())
+    return h.hexdigest()[:16] if found else "none"
+
+
+def stage_determinism(work, tier, seed):
+    """C17: the same (grammar, effective settings) compiled in fresh processes
+    through the library API, the rcomp binary and directory processing."""
+    import subprocess
+    from concurrent.futures import ThreadPoolExecutor
+    rc = run.rcomp_bin()
+    base = os.path.dirname(work.path("det", "x", "y"))
+    jobs = []
+    vectors = det_vectors(tier, seed)
+    gnames = sorted(DET_GRAMMARS)
+    reps = 2 if tier == "quick" else 4
+    for gi, g in enumerate(gnames):
+        for vi, v in enumerate(vectors):
+            if v["go"] == "f" and v["algo"] == "lr":
+                continue  # documented: grammar order cannot be disabled for LR
+            if tier == "quick" and (gi + vi) % 2 == 1 and vi > 0:
+                continue
+            for rep in range(reps):
+                jobs.append((g, vi, v, "api", rep))
+                jobs.append((g, vi, v, "cli", rep))
+
+    def one(job):
+        g, vi, v, via, rep = job
+        d = os.path.join(base, "%s_%d_%s_%d" % (g, vi, via, rep))
+        os.makedirs(d, exist_ok=True)
+        gp = os.path.join(d, "g.rustemo")
+        open(gp, "w").write(DET_GRAMMARS[g])
+        out = os.path.join(d, "out")
+        try:
+            if via == "api":
+                rq = os.path.join(d, "req.json")
+                json.dump({"grammar_path": gp, "settings": api_settings(v), "out_dir": out, "out_dir_actions": out,
+                           "result_path": os.path.join(d, "res.json")}, open(rq, "w"))
+                r = subprocess.run([run.vhist_bin(), "api", rq], capture_output=True, text=True,
+                                   env=run.clean_env(), timeout=120)
+                res = json.load(open(os.path.join(d, "res.json"))) if os.path.exists(os.path.join(d, "res.json")) \
+                    else {"outcome": "crash"}
+                outcome = res["outcome"]
+            else:
+                r = subprocess.run([rc, gp] + cli_args(v, out), capture_output=True, text=True,
+                                   env=run.clean_env(), timeout=120)
+                o = r.stdout + r.stderr
+                outcome = "ok" if r.returncode == 0 and "not generated" not in o else \
+                    ("err" if r.returncode == 0 else "panic")
+        except subprocess.TimeoutExpired:
+            outcome = "hang"
+        dig = digest_dir(out) if outcome == "ok" else outcome
+        return {"id": "%s/v%d/%s/%d" % (g, vi, via, rep), "g": g, "given": v, "via": via, "proc": rep, "out": dig}
+    with ThreadPoolExecutor(max_workers=run.NCPU) as ex:
+        events = list(ex.map(one, jobs))
+    # directory processing: all grammars in one tree, two layouts (different traversal orders)
+    for layout in (0, 1):
+        root = os.path.join(base, "dir%d" % layout)
+        outroot = os.path.join(base, "dirout%d" % layout)
+        # process_dir stops at the first grammar that fails, so only grammars that
+        # compile under the default settings take part
+        okg = [g for g in gnames if any(e["g"] == g and e["given"] == DET_DEFAULT and len(e["out"]) > 8 for e in events)]
+        for k, g in enumerate(okg):
+            sub = os.path.join(root, ("%02d_%s" % (k, g)) if layout == 0 else ("%02d_%s" % (len(gnames) - k, g)))
+            os.makedirs(sub, exist_ok=True)
+            open(os.path.join(sub, "g.rustemo"), "w").write(DET_GRAMMARS[g])
+        subprocess.run([rc, root] + cli_args(DET_DEFAULT, outroot), capture_output=True, text=True,
+                       env=run.clean_env(), timeout=300)
+        for sub in sorted(os.listdir(root)):
+            g = sub.split("_", 1)[1]
+            od = os.path.join(outroot, sub)
+            events.append({"id": "%s/dir%d" % (g, layout), "g": g, "given": DET_DEFAULT, "via": "dir", "proc": layout,
+                           "out": digest_dir(od) if os.path.isdir(od) else "err"})
+    ep = work.path("det", "events.ndjson")
+    with open(ep, "w") as f:
+        for e in events:
+            f.write(json.dumps(e) + "\n")
+    r = run.run_tlc(work, "CheckDeterminism", "CheckDeterminism.cfg", {"EVENTS": ep}, timeout=1200)
+    v = r["verdicts"][0]
+    import collections
+    outs = collections.Counter(e["out"] if len(e["out"]) < 8 else "generated" for e in events)
+    return {"verdicts": [v] if v["bad"] else [], "bad": v["bad"][:30], "events": {e["id"]: e for e in events
+                                                                                if any(e["id"] in b[:2] for b in v["bad"][:30])},
+            "states": r["distinct"], "transitions": r["states"], "ncases": len(events), "ntraces": len(events),
+            "nkeys": v["nkeys"], "outcomes": dict(outs),
+            "samples": [dict(id=e["id"], via=e["via"], out=e["out"]) for e in events[:300:97]]}
+
+
+STAGES = {"determinism": stage_determinism, "regen": stage_regen, "pipeline": stage_pipeline, "lex": stage_lex, "resolve": stage_resolve, "prec": stage_prec, "tables": stage_tables, "lr": stage_lr, "mci_lr": stage_mci_lr, "glr": stage_glr}
 
 
 # ---------------------------------------------------------------------------
@@ -999,7 +1162,7 @@ def coverage(prop, res, stage_names):
                                                    "ntables", "maxlen", "wall", "nambiguous", "ninscope", "nlrglr",
                                                    "ncells_exercised", "ngrammars_with_conflicts",
                                                    "mc_lex_configurations", "mc_lex_ok", "nmulti_survivors",
-                                                   "outcomes", "mc_pipeline_ok", "mc_regen_ok", "nregenerations") if k in r}
+                                                   "outcomes", "mc_pipeline_ok", "mc_regen_ok", "nregenerations", "nkeys") if k in r}
         cov["per_stage"][st]["divergences"] = len(r.get("divergences", []))
     cov["states"] = max(cov["states"], 1)
     cov["transitions"] = max(cov["transitions"], 1)
